@@ -5,7 +5,7 @@ use crate::evalmodel::*;
 use crate::runner::*;
 use crate::vensure;
 use proptest::prelude::*;
-use serde_json::Value;
+use serde_json::{json, Value};
 
 /// probability tolerance: the statement fixes the value (product of the chosen weights), not the
 /// order of the f32 multiplications, so allow (n+1) roundings.
@@ -15,6 +15,30 @@ pub fn prob_ok(got: f32, want: f64, n: usize) -> bool {
         return true;
     }
     (g - want).abs() <= want.abs() * (n as f64 + 1.0) * (2.0f64).powi(-23) + f64::MIN_POSITIVE
+}
+
+/// probability of one showdown: for up to 4 players it must be one of the f32 values the product
+/// of the chosen weights can take under some order/association of the multiplications (or the
+/// correctly rounded exact product) - in particular the weight itself for one player; for more
+/// players a relative tolerance of (n+1) roundings.
+pub fn check_probability(cfg: &Config, combos: &[u16], got: f32, want: f64) -> Result<(), String> {
+    let ws: Vec<f32> = combos.iter().enumerate().map(|(i, c)| cfg.ranges[i].combos[*c as usize].2).collect();
+    match product_candidates(&ws) {
+        Some(c) => {
+            if c.contains(&got.to_bits()) || (got == 0.0 && c.iter().any(|b| f32::from_bits(*b) == 0.0)) {
+                Ok(())
+            } else {
+                Err(format!("probability {} ({:#x}) reported; the chosen weights {:?} multiply to {} (possible f32 results: {:?})", got, got.to_bits(), ws, want, c.iter().map(|b| f32::from_bits(*b)).collect::<Vec<_>>()))
+            }
+        }
+        None => {
+            if prob_ok(got, want, ws.len()) {
+                Ok(())
+            } else {
+                Err(format!("probability {} reported, product of the chosen weights {:?} is {}", got, ws, want))
+            }
+        }
+    }
 }
 
 pub fn check(cfg: &Config) -> CheckResult {
@@ -34,7 +58,7 @@ pub fn check(cfg: &Config) -> CheckResult {
             Ok(i) => {
                 let want = deals[i].prob;
                 let p = f32::from_bits(r.prob_bits);
-                vensure!(prob_ok(p, want, n), "probability", "deal {}: probability {} reported, product of the chosen weights is {}", describe_key(cfg, k), p, want);
+                check_probability(cfg, &r.combos, p, want).map_err(|e| Fail::new("probability", format!("deal {}: {}", describe_key(cfg, k), e)))?;
             }
             Err(_) => {
                 return Err(Fail::new("extra-deal", format!("evaluator yields a deal that is not legal: {}", describe_key(cfg, k))));
@@ -87,13 +111,166 @@ pub fn check(cfg: &Config) -> CheckResult {
     if cfg.ranges.iter().any(|r| r.combos.len() == 1326) {
         cls |= 64;
     }
+    if cfg.ranges.iter().any(|r| r.combos.iter().any(|c| c.2 > 0.0 && c.2 < 1.0e-5)) {
+        cls |= 256;
+    }
     Ok(Outcome::new(blocked_pp > 0 && multi, fp_of(&format!("{:?}", cfg)), cls))
 }
 
-pub const CLASSES: &[&str] = &["player_player_collision", "range_overlaps_flop", "range_over_255", "three_plus_players", "weights_not_1", "no_legal_deal", "full_1326_range", "seven_plus_players"];
+// ---------------------------------------------------------------------------------------------
+// configurations far too large to drain: only a prefix of the output can be observed
+
+#[derive(Clone, Debug, serde::Serialize, serde::Deserialize)]
+pub struct PrefixCase {
+    pub cfg: Config,
+    pub take: usize,
+}
+
+/// number of legal deals at position (t,r), counted up to `cap`
+fn legal_deals_at(cfg: &Config, t: u8, r: u8, cap: usize) -> usize {
+    let deck = deck49(&cfg.flop);
+    let (ct, cr) = (deck[t as usize], deck[r as usize]);
+    let mut base = 1u64 << ct | 1u64 << cr;
+    for f in cfg.flop {
+        base |= 1 << f;
+    }
+    let live: Vec<Vec<u64>> = cfg.ranges.iter().map(|rg| rg.combos.iter().map(|c| 1u64 << c.0 | 1u64 << c.1).filter(|m| m & base == 0).collect()).collect();
+    if live.iter().any(|l| l.is_empty()) {
+        return 0;
+    }
+    fn rec(live: &[Vec<u64>], p: usize, used: u64, cap: usize, n: &mut usize) {
+        if *n >= cap {
+            return;
+        }
+        if p == live.len() {
+            *n += 1;
+            return;
+        }
+        for m in &live[p] {
+            if used & m == 0 {
+                rec(live, p + 1, used | m, cap, n);
+                if *n >= cap {
+                    return;
+                }
+            }
+        }
+    }
+    let mut n = 0;
+    rec(&live, 0, 0, cap, &mut n);
+    n
+}
+
+pub fn check_prefix(c: &PrefixCase) -> CheckResult {
+    let cfg = &c.cfg;
+    vensure!(cfg.valid() && cfg.ranges.iter().all(|r| !r.combos.is_empty()) && c.take >= 1, "bad-case", "invalid prefix case");
+    let (from, to) = match cfg.scope {
+        Some((a, b, cc, d)) => (pos_index(a, b), pos_index(cc, d)),
+        None => (0u16, 1176u16),
+    };
+    vensure!(from <= to, "bad-case", "window reversed");
+    let tr = Translator::new(cfg);
+    let t_dbg = std::time::Instant::now();
+    let mut keys = std::collections::HashSet::new();
+    let mut got = 0usize;
+    let mut first_pos: Option<u16> = None;
+    let mut last_pos = 0u16;
+    let mut exhausted = true;
+    let mut it = cfg.evaluator().into_iter();
+    while let Some(s) = it.next() {
+        let rec = tr.record(&s)?;
+        vensure!(rec.t < rec.r, "turn-river-order", "turn/river positions ({}, {})", rec.t, rec.r);
+        let p = pos_index(rec.t, rec.r);
+        vensure!(p >= from && p < to, "prefix-outside-window", "showdown at position {:?} outside the window {:?}..{:?}", index_pos(p), index_pos(from), index_pos(to));
+        vensure!(p >= last_pos, "prefix-position-order", "positions step back from {:?} to {:?}", index_pos(last_pos), index_pos(p));
+        last_pos = p;
+        if first_pos.is_none() {
+            first_pos = Some(p);
+        }
+        vensure!(keys.insert(rec.key()), "duplicate-deal", "deal yielded more than once within the first {} showdowns: {}", got + 1, describe_key(cfg, rec.key()));
+        let want: f64 = rec.combos.iter().enumerate().map(|(i, ci)| cfg.ranges[i].combos[*ci as usize].2 as f64).product();
+        check_probability(cfg, &rec.combos, f32::from_bits(rec.prob_bits), want).map_err(|e| Fail::new("probability", format!("deal {}: {}", describe_key(cfg, rec.key()), e)))?;
+        got += 1;
+        if got >= c.take {
+            exhausted = false;
+            break;
+        }
+    }
+    if std::env::var("VERIF_DEBUG_TIMING").is_ok() {
+        eprintln!("prefix: sizes {:?} scope {:?} take {} got {} espada {:.2}s", cfg.ranges.iter().map(|r| r.combos.len()).collect::<Vec<_>>(), cfg.scope, c.take, got, t_dbg.elapsed().as_secs_f64());
+    }
+    // how many legal deals does the window hold (counted up to `take`), and where is the first one
+    let mut need = 0usize;
+    let mut first_legal: Option<u16> = None;
+    let mut p = from;
+    while p < to && need < c.take {
+        let (t, r) = index_pos(p);
+        let n = legal_deals_at(cfg, t, r, c.take - need);
+        if n > 0 && first_legal.is_none() {
+            first_legal = Some(p);
+        }
+        need += n;
+        p += 1;
+    }
+    if std::env::var("VERIF_DEBUG_TIMING").is_ok() {
+        eprintln!("prefix: model done need {} at {:.2}s", need, t_dbg.elapsed().as_secs_f64());
+    }
+    let sizes: Vec<usize> = cfg.ranges.iter().map(|r| r.combos.len()).collect();
+    vensure!(
+        got >= need.min(c.take),
+        "prefix-too-short",
+        "window {:?}..{:?}, range sizes {:?}: the evaluator stops after {} showdowns (exhausted: {}), the window holds at least {} legal deals",
+        index_pos(from),
+        index_pos(to),
+        sizes,
+        got,
+        exhausted,
+        need
+    );
+    if let (Some(a), Some(b)) = (first_pos, first_legal) {
+        vensure!(a == b, "prefix-first-position", "first showdown at position {:?}, the first position of the window with a legal deal is {:?}", index_pos(a), index_pos(b));
+    }
+    vensure!(first_legal.is_some() || got == 0, "extra-deal", "the window {:?}..{:?} holds no legal deal but {} showdowns were yielded", index_pos(from), index_pos(to), got);
+    let product: f64 = sizes.iter().map(|s| *s as f64).product();
+    let mut cls = 0u64;
+    if product * (to - from).max(1) as f64 >= 4294967296.0 {
+        cls |= 1;
+    }
+    if product >= 4294967296.0 {
+        cls |= 2;
+    }
+    if cfg.scope.is_some() {
+        cls |= 4;
+    }
+    if sizes.len() >= 4 {
+        cls |= 8;
+    }
+    Ok(Outcome::new(cls & 1 != 0, fp_of(&format!("{:?}", c)), cls))
+}
+pub const PREFIX_CLASSES: &[&str] = &["window_slots_over_2_32", "combos_product_over_2_32", "scoped", "four_plus_players"];
+
+/// 3 big ranges (up to all 1326 combos each; with more players a single blocked leading combo
+/// costs 1326^(n-1) odometer steps before the next showdown, which is not affordable), or 4
+/// ranges of at most 160 combos; optionally a scope window
+pub fn prefix_strategy(scoped: bool) -> impl Strategy<Value = PrefixCase> {
+    let size = prop_oneof![Just(1326usize), Just(1024usize), Just(1625usize), Just(2048usize), Just(512usize), 300usize..1326];
+    (flop_strategy(), proptest::collection::vec((size, any::<u64>(), any::<bool>()), 3..=4), if scoped { proptest::option::weighted(0.9, crate::props::c04::window_strategy()).boxed() } else { Just(None::<(u16, u16)>).boxed() }, prop_oneof![Just(1usize), Just(64usize), 500usize..3000]).prop_map(|(flop, rs, w, take)| {
+        let cap = if rs.len() >= 4 { 160 } else { 1326 };
+        let ranges = rs.iter().map(|(n, seed, wts)| sized_range((*n).min(cap), *seed, *wts)).collect();
+        let scope = w.filter(|(a, b)| a < b).map(|(a, b)| {
+            let (pa, pb) = (index_pos(a), index_pos(b));
+            (pa.0, pa.1, pb.0, pb.1)
+        });
+        PrefixCase { cfg: Config { flop, ranges, scope }, take }
+    })
+}
+
+pub const CLASSES: &[&str] = &["player_player_collision", "range_overlaps_flop", "range_over_255", "three_plus_players", "weights_not_1", "no_legal_deal", "full_1326_range", "seven_plus_players", "tiny_weights"];
 
 pub fn strategy(budget: u128) -> impl Strategy<Value = Config> {
-    let sizes = prop_oneof![Just(255usize), Just(256usize), Just(257usize), Just(300usize), Just(512usize), Just(1326usize), 100usize..1326];
+    let sizes = prop_oneof![
+        Just(127usize), Just(128usize), Just(129usize), Just(255usize), Just(256usize), Just(257usize), Just(300usize), Just(511usize), Just(512usize), Just(513usize),
+        Just(1023usize), Just(1024usize), Just(1025usize), Just(1325usize), Just(1326usize), 100usize..1326
+    ];
     prop_oneof![
         4 => pool_config(2..=4, 6..=12, 8),
         1 => pool_config(5..=6, 10..=14, 3),
@@ -110,13 +287,32 @@ pub fn strategy(budget: u128) -> impl Strategy<Value = Config> {
         fit_budget(&mut c, budget);
         c
     })
+    .prop_flat_map(|c| (Just(c), proptest::option::weighted(0.2, (any::<u64>(), 0usize..4))))
+    .prop_map(|(mut c, tiny)| {
+        // with at most 4 players a product of tiny weights stays a normal f32: sprinkle some
+        if let Some((seed, which)) = tiny {
+            if c.ranges.len() <= 4 {
+                const TINY: [f32; 4] = [9.536743e-7, 1.1920929e-7, 1.0e-7, 5.9604645e-8];
+                let mut x = seed;
+                for r in c.ranges.iter_mut() {
+                    for combo in r.combos.iter_mut() {
+                        x = mix64(x);
+                        if x % 5 == 0 {
+                            combo.2 = TINY[(which + (x >> 8) as usize) % 4];
+                        }
+                    }
+                }
+            }
+        }
+        c
+    })
 }
 
 pub fn run(ctx: &mut Ctx) {
-    ctx.rule = "proptest configurations (ordered flop, 1..=10 players, ranges built directly from combo subsets with weights {1,.5,.25,0} + arbitrary f32 in [2^-10,1]): card-pool ranges (frequent player-player blocking, pools may contain flop cards), one player of any size up to 1326, small free ranges, two identical ranges, narrow beside wide (255/256/257/300/512/1326/random); sizes cut to a slot budget (cost bound). Oracle: multiset of yielded deals == reference enumeration (every legal deal once, nothing else), board = flop in order + turn/river, hole cards in player order, probability == product of weights within (n+1) roundings, all cards distinct. Non-trivial = the reference excluded >= 1 candidate deal because two players collide AND some player has >= 2 combos; distinct by configuration.".into();
+    ctx.rule = "proptest configurations (ordered flop, 1..=10 players, ranges built directly from combo subsets with weights {1,.5,.25,0} + arbitrary f32 in [2^-10,1] + 'nearly flat' ranges whose weights are neighbouring f32 values): card-pool ranges (frequent player-player blocking, pools may contain flop cards), one player of any size up to 1326, small free ranges, two identical ranges, narrow beside wide (127/128/129/255/256/257/300/511/512/513/1023/1024/1025/1325/1326/random); tiny weights (around 2^-20..2^-24) when there are <= 4 players; sizes cut to a slot budget (cost bound). Oracle: multiset of yielded deals == reference enumeration (every legal deal once, nothing else), board = flop in order + turn/river, hole cards in player order, probability == product of the chosen weights (<= 4 players: exactly one of the f32 values some order/association of the multiplications gives, for one player the weight itself; more players: within (n+1) roundings), all cards distinct. Stream huge_prefix: 3 ranges of 300-1326 combos each or 4 of up to 160 (up to 2.3e9 slots per position, far too large to drain): the first 1-3000 showdowns must be legal, distinct, ordered by position, start at the first position that has a legal deal, carry the right probability, and there must be as many of them as the window provably holds. Non-trivial = the reference excluded >= 1 candidate deal because two players collide AND some player has >= 2 combos; distinct by configuration.".into();
     ctx.assumptions = vec![
         "turn/river order inside the board is not demanded here (C04 does)".into(),
-        "weights in {0} U [2^-10,1] so that a product over <= 6 players cannot underflow".into(),
+        "weights in {0} U [2^-10,1] (and a few values down to 2^-24 when there are <= 4 players) so that the product cannot leave the normal f32 range".into(),
     ];
     let budget = ctx.tier.pick(2_000_000u128, 12_000_000u128);
     let cases = ctx.tier.pick(1200, 12_000);
@@ -124,8 +320,14 @@ pub fn run(ctx: &mut Ctx) {
     for (c, d) in [("player_player_collision", 4), ("range_overlaps_flop", 10), ("range_over_255", 20), ("three_plus_players", 8), ("weights_not_1", 4)] {
         ctx.require_class("configurations", c, cases / d);
     }
+    let cases = ctx.tier.pick(160, 3_000);
+    ctx.run_random_brief(StreamCfg::new("huge_prefix", PREFIX_CLASSES, cases).shrink(40), || prefix_strategy(false), check_prefix, |c| json!({"cfg": c.cfg.brief(), "take": c.take}));
+    ctx.require_class("huge_prefix", "window_slots_over_2_32", cases / 4);
 }
 
-pub fn replay(_stream: &str, path: &str, case: &Value) -> i32 {
+pub fn replay(stream: &str, path: &str, case: &Value) -> i32 {
+    if stream == "huge_prefix" {
+        return replay_case::<PrefixCase>("C02", path, case, check_prefix);
+    }
     replay_case::<Config>("C02", path, case, check)
 }
